@@ -110,6 +110,8 @@ inductive ValErr
   | noReceivers    -- "must have at least one receiver"
   | noExporters    -- "must have at least one exporter"
   | dupProcessor   -- "references processor … multiple times"
+  | noPipelines    -- `Config.Validate`: "service must have at least one pipeline" (gate `service.AllowNoPipelines` off, its default)
+  | profilesGate   -- `Config.Validate`: a profiles pipeline while the feature gate `service.profilesSupport` is off
 deriving DecidableEq, Repr
 
 def hasDup : List CompId → Bool
@@ -125,6 +127,15 @@ def validatePipe (p : Pipeline) : Option ValErr :=
 
 /-- `xconfmap.Validate(pipelines.Config)`: every pipeline is validated, the errors are joined (classes, deduplicated) -/
 def validate (cfg : Cfg) : List ValErr := dedup (cfg.pipes.filterMap validatePipe)
+
+/-- `pipelines.Config.Validate` (the map as a whole): at least one pipeline; a profiles pipeline needs the feature gate
+`service.profilesSupport` (`gate`); the third branch (`unknown signal`) has no counterpart: `Sig` has exactly the four signals -/
+def validateMap (gate : Bool) (cfg : Cfg) : List ValErr :=
+  (if cfg.pipes.isEmpty then [ValErr.noPipelines] else []) ++
+  (if !gate && cfg.pipes.any (fun p => p.id.sig == Sig.profiles) then [ValErr.profilesGate] else [])
+
+/-- `xconfmap.Validate(pipelines.Config)` in full: the map's own `Validate` and every pipeline's, errors joined (classes, deduplicated) -/
+def validateAll (gate : Bool) (cfg : Cfg) : List ValErr := dedup (validateMap gate cfg ++ cfg.pipes.filterMap validatePipe)
 
 /-! ## createNodes -/
 
@@ -266,6 +277,37 @@ def isConnNode : Node → Bool
 def cycleMsgOk (cfg : Cfg) : List Node → Bool
   | [] => false
   | n :: rest => isConnNode n && !rest.isEmpty && (rest.getLast? == some n) && linkedChain (edges cfg) n rest
+
+/-! ## content of the connector error
+
+`createNodes` reports ONE unsupported use: `connector %q used as exporter in %v pipeline but not used in any supported
+receiver pipeline` (or the mirror image for a receiver-side use), where `%v` is `formatPipelineNamesWithSignal`: the
+entries of `connectorsAsExporter[c]` (one per occurrence in a pipeline's list) whose signal is the unsupported one.
+Which connector / signal is reported depends on Go map iteration and is not modelled; what is checked (monitor
+`connMsgOk`, sound by `C09_connector_message_sound`) is that the reported use is a genuine unsupported use and that the
+listed pipelines are exactly the pipelines of that signal using the connector on that side. -/
+
+inductive Role | exp | recv
+deriving DecidableEq, Repr
+
+def Role.list (r : Role) (p : Pipeline) : List CompId :=
+  match r with
+  | .exp => p.exps
+  | .recv => p.recv
+
+/-- `formatPipelineNamesWithSignal(connectorsAs<Role>[c], s)`: one entry per occurrence of `c` in the list of a pipeline of signal `s` -/
+def usesOf (cfg : Cfg) (role : Role) (c : CompId) (s : Sig) : List PipeId :=
+  cfg.pipes.flatMap (fun p => if p.id.sig = s then ((role.list p).filter (fun x => x == c)).map (fun _ => p.id) else [])
+
+/-- equal as multisets (the order of the printed list is Go map iteration order) -/
+def sameBag {α : Type} [DecidableEq α] (a b : List α) : Bool :=
+  a.all (fun x => a.count x == b.count x) && b.all (fun x => a.count x == b.count x)
+
+def connMsgOk (cfg : Cfg) (role : Role) (c : CompId) (s : Sig) (listed : List PipeId) : Bool :=
+  cfg.isConn c && !listed.isEmpty && sameBag listed (usesOf cfg role c s) &&
+  (match role with
+   | .exp => (asRecv cfg c).all (fun q => !(cfg.supp c s q.id.sig))
+   | .recv => (asExp cfg c).all (fun p => !(cfg.supp c p.id.sig s)))
 
 /-! ## a factory that fails in `buildComponents`
 
